@@ -9,7 +9,7 @@ CORPUS = ['C14']
 
 
 def check(ctx):
-    return S.standard_check(ctx, "C14", PLAN, MONITORS, THEOREMS, corpus_dirs=CORPUS)
+    return S.standard_check(ctx, "C14", PLAN, MONITORS, THEOREMS, corpus_dirs=CORPUS, e2e=1)
 
 
 def replay(ctx, path):
